@@ -5,6 +5,7 @@ import Driver.DicOps
 import Driver.KanaOps
 import Driver.TrieOps
 import Driver.KkcOps
+import Driver.ServerOps
 
 namespace Driver
 open Chokan
@@ -24,12 +25,16 @@ def romaOps (op : String) (arg : String) : Option String :=
 structure State where
   trie : Option Chokan.Trie.Trie := none
   kkc : KkcState := {}
+  srv : Option Chokan.Server.State := none
 
 def handle (st : State) (line : String) : State × String :=
   let (op, arg) := splitOp line
   match trieOps st.trie op arg with
   | some (t, r) => ({ st with trie := t }, r.trimAsciiEnd.toString)
   | none =>
+    match serverOps st.srv op arg with
+    | some (sv, r) => ({ st with srv := sv }, r.trimAsciiEnd.toString)
+    | none =>
     match kkcOps st.kkc op arg with
     | some (k, r) => ({ st with kkc := k }, r.trimAsciiEnd.toString)
     | none =>
